@@ -15,11 +15,13 @@ Vels(run) == {run[j][7] : j \in 1..Len(run)}
 AllInRange(d) == \A i \in 1..Len(d) : d[i].rest \/ InMidiRange(d[i], KeyInForce(d, i))
 WellFormedInput(d) == \A i \in 1..Len(d) :
     d[i].rest \/ (ParseInterval(d[i].deg).ok /\ KnownSymbol(d[i].sym) /\ (d[i].base = <<>> \/ ParseInterval(d[i].base).ok))
-\* structure shared by C01/C02/C07 on single-track files: per chord one run of note-ons then one run of note-offs
-RunsShape(runs, cidx) ==
-   /\ Len(runs) = 2 * Len(cidx)
-   /\ \A k \in 1..Len(cidx) : (\A j \in 1..Len(runs[2 * k - 1]) : IsOn(runs[2 * k - 1][j]))
-                                /\ (\A j \in 1..Len(runs[2 * k]) : IsOff(runs[2 * k][j]))
+\* the notes of a file are grouped by WHEN they are struck, not by the order in which the writer happened to emit them:
+\* the k-th distinct note-on tick (ascending) belongs to the k-th chord of the document
+RECURSIVE SortedTicks(_)
+SortedTicks(S) == IF S = {} THEN <<>> ELSE LET m == CHOOSE x \in S : \A y \in S : x <= y IN <<m>> \o SortedTicks(S \ {m})
+OnsOf(ev) == SelectSeq2(ev, IsOn)
+StrikeTicks(ev) == LET o == OnsOf(ev) IN SortedTicks({o[j][2] : j \in 1..Len(o)})
+StruckAt(ev, t) == SelectSeq2(ev, LAMBDA e : IsOn(e) /\ e[2] = t)
 \* start tick of every instance (and of the end, index Len+1) for a choice of neighbours at the half ticks
 StartsOf(r, d, ch) == LET RECURSIVE F(_, _)
                        F(i, acc) == IF i > Len(d) THEN <<acc>> ELSE <<acc>> \o F(i + 1, acc + Dur(r.division, d, ch, i))
@@ -28,37 +30,43 @@ StartsOf(r, d, ch) == LET RECURSIVE F(_, _)
 Strip(e) == <<e[2], e[4], e[5], e[6], e[7], e[8]>>          \* tick, kind, channel, data, payload: no track, no delta
 
 \* ------------------------------------------------------------------ C01
-C01Ok(r) == LET d == Eff(r.doc, r.flags)  cidx == ChordIdxOf(d)  runs == Runs(SelectSeq2(r.ev, IsNote)) IN
+C01Ok(r) == LET d == Eff(r.doc, r.flags)  cidx == ChordIdxOf(d)  ticks == StrikeTicks(r.ev) IN
          /\ WellFormedInput(d)                \* the driver generated what it claims
          /\ AllInRange(d)                     \* C01 is about chords inside the MIDI range (the generator keeps them there)
-         /\ r.tracks = 1
-         /\ r.ok /\ RunsShape(runs, cidx)
+         /\ r.ok
+         /\ Len(ticks) = Len(cidx)            \* one strike time per chord (C01 documents have no zero-length instances), rests are silent
          /\ \A k \in 1..Len(cidx) :
-              BagOfSeq(Keys(runs[2 * k - 1])) = ExpectedKeys(d[cidx[k]], KeyInForce(d, cidx[k]))
+              BagOfSeq(Keys(StruckAt(r.ev, ticks[k]))) = ExpectedKeys(d[cidx[k]], KeyInForce(d, cidx[k]))
 
 \* ------------------------------------------------------------------ C02
-\* off before on where a track has both for the same key at the same tick
-ReleaseBeforeStrike(r, notes) ==
-  \A t \in 0..(r.ntracks - 1) :
-    LET s == SelectSeq2(notes, LAMBDA e : e[1] = t) IN
-    \A a \in 1..Len(s) : IsOn(s[a]) =>
-       \A b \in (a + 1)..Len(s) : ~(IsOff(s[b]) /\ s[a][2] = s[b][2] /\ s[a][5] = s[b][5] /\ s[a][6] = s[b][6])
+\* Per track and per (channel, key) the note events, in file order: every strike is closed by a later release (the j-th
+\* release closes the j-th strike; a chord may sound a pitch twice), where a release of an earlier chord and a strike of
+\* the same pitch share a tick the release comes first, and every (strike tick, release tick) pair must be the span of
+\* a chord instance; every chord's span must be
+\* sounded by at least one note. Nothing here depends on the order in which different pitches are emitted, on which
+\* track a note lands, or on which pitches a chord has (that is C01's business).
 NoZeroChord(r, d) == \A i \in 1..Len(d) : d[i].rest \/ Lo(r.division, d[i]) > 0
-\* the timing law is stated on the single-track rendering; for N > 1 the note events, merged, must be the same
+Voices(notes) == {<<notes[j][1], notes[j][5], notes[j][6]>> : j \in 1..Len(notes)}            \* <<track, channel, key>>
+VoiceSeq(notes, v) == SelectSeq2(notes, LAMBDA e : e[1] = v[1] /\ e[5] = v[2] /\ e[6] = v[3])
+\* indices of the strikes / releases of one voice, in file order; the j-th release closes the j-th strike
+IdxWhere(s, P(_)) == LET RECURSIVE F(_)  F(k) == IF k > Len(s) THEN <<>> ELSE (IF P(s[k]) THEN <<k>> ELSE <<>>) \o F(k + 1) IN F(1)
+VoiceOk(s) == LET on == IdxWhere(s, IsOn)  off == IdxWhere(s, IsOff) IN
+   /\ Len(on) = Len(off)                                           \* every note is closed, nothing is released that was not struck
+   /\ \A j \in 1..Len(on) : on[j] < off[j]
+   \* where a release of an EARLIER chord and a strike share a tick, the release comes first in the track
+   /\ \A j \in 1..Len(off) : s[on[j]][2] < s[off[j]][2] =>
+          \A a \in 1..Len(on) : s[on[a]][2] = s[off[j]][2] => on[a] > off[j]
+SpansOf(s) == LET on == IdxWhere(s, IsOn)  off == IdxWhere(s, IsOff) IN
+              {<<s[on[j]][2], s[off[j]][2]>> : j \in 1..Len(on)}
 C02Ok(r) == LET d == Eff(r.doc, r.flags)  cidx == ChordIdxOf(d)
-             single == IF r.tracks = 1 THEN r.ev ELSE r.ev1
-             notes == SelectSeq2(single, IsNote)  runs == Runs(notes) IN
-         /\ r.ok /\ r.ok1 /\ RunsShape(runs, cidx)
-         /\ \E ch \in Choices(r.division, d) : LET st == StartsOf(r, d, ch) IN
-              \A k \in 1..Len(cidx) :
-                 LET i == cidx[k]  ons == runs[2 * k - 1]  offs == runs[2 * k] IN
-                 /\ Ticks(ons) = {st[i]}                 \* all strikes at the instance start (first instance at 0)
-                 /\ Ticks(offs) = {st[i + 1]}            \* all releases at its end = start of the next instance
-                 /\ BagOfSeq(Keys(offs)) = BagOfSeq(Keys(ons))
-         \* (a chord that rounds to 0 ticks strikes and releases at the same tick, strike first: the rule is about different chords)
-         /\ (NoZeroChord(r, d) => ReleaseBeforeStrike(r, SelectSeq2(r.ev, IsNote)))
-         /\ (r.tracks > 1 => LET a == SelectSeq2(r.ev, IsNote) IN
-                               BagOfSeq([j \in 1..Len(a) |-> Strip(a[j])]) = BagOfSeq([j \in 1..Len(notes) |-> Strip(notes[j])]))
+             notes == SelectSeq2(r.ev, IsNote)
+             voices == Voices(notes) IN
+         /\ r.ok /\ r.ok1
+         /\ \A v \in voices : VoiceOk(VoiceSeq(notes, v))
+         /\ \E ch \in Choices(r.division, d) : LET st == StartsOf(r, d, ch)
+                                                   want == {<<st[cidx[k]], st[cidx[k] + 1]>> : k \in 1..Len(cidx)}
+                                                   got == UNION {SpansOf(VoiceSeq(notes, v)) : v \in voices} IN
+              got = want          \* strikes at the instance start (first instance at 0), releases at its end; rests silent; gapless
 
 \* ------------------------------------------------------------------ C06
 Merged(ev) == LET s == SelectSeq2(ev, LAMBDA e : ~IsEOT(e)) IN BagOfSeq([j \in 1..Len(s) |-> Strip(s[j])])
@@ -73,23 +81,33 @@ C06Ok(r) == LET d == Eff(r.doc, r.flags)  eots == SelectSeq2(r.ev, IsEOT)  eots1
 \* ------------------------------------------------------------------ C07
 DynRank(s) == CASE s = "pp" -> 1 [] s = "p" -> 2 [] s = "mp" -> 3 [] s = "mf" -> 4 [] s = "f" -> 5 [] s = "ff" -> 6 [] OTHER -> 0
 VelocityOk(r, d) ==
-  r.tracks = 1 =>
-    LET cidx == ChordIdxOf(d)  runs == Runs(SelectSeq2(r.ev, IsNote))
+    LET cidx == ChordIdxOf(d)  ticks == StrikeTicks(r.ev)
         dyn == [k \in 1..Len(cidx) |-> DynInForce(d, cidx[k])]
-        vel == [k \in 1..Len(cidx) |-> Vels(runs[2 * k - 1])] IN
-    /\ RunsShape(runs, cidx)
+        vel == [k \in 1..Len(ticks) |-> Vels(StruckAt(r.ev, ticks[k]))] IN
+    Len(ticks) = Len(cidx) =>            \* (documents with a zero-length chord are not used for the velocity law)
     /\ \A k \in 1..Len(cidx) : Cardinality(vel[k]) = 1
     /\ \A j, k \in 1..Len(cidx) :
          /\ (dyn[j] = dyn[k] => vel[j] = vel[k])                                  \* a dynamic holds for all following notes
          /\ (DynRank(dyn[j]) > 0 /\ DynRank(dyn[k]) > DynRank(dyn[j])
                => \A x \in vel[j], y \in vel[k] : y > x)                         \* louder never quieter
-C07Ok(r) == LET d == Eff(r.doc, r.flags)  ctl == SelectSeq2(r.ev, IsControl)  dem == Demands(d) IN
+\* the value of a tempo / meter / key setting in force at instance i: the last demand of that type at or before i
+InForceAt(dem, ty, i) == LET S == {x \in dem : x[2] = ty /\ x[1] <= i} IN (CHOOSE x \in S : \A y \in S : y[1] <= x[1])[3]
+C07Ok(r) == LET d == Eff(r.doc, r.flags)  ctl == SelectSeq2(r.ev, IsControl)  dem == Demands(d)
+                textual == {mTEXT, mLYRIC, mMARKER} IN
          /\ r.ok
-         /\ Len(ctl) = Cardinality(dem)                     \* nothing but the demanded control events
          /\ \E ch \in Choices(r.division, d) : LET st == StartsOf(r, d, ch) IN
-              \A dm \in dem : \E j \in 1..Len(ctl) :
-                    /\ ctl[j][2] = st[dm[1]]                                   \* at the start of its instance
-                    /\ Satisfies(ctl[j], dm)                                   \* with the written value
+              \* every demanded event is there: at the start of its instance, with the written value, settings on track 0
+              /\ \A dm \in dem : \E j \in 1..Len(ctl) :
+                    /\ ctl[j][2] = st[dm[1]]
+                    /\ Satisfies(ctl[j], dm)
                     /\ (dm[2] \in {mTEMPO, mMETER, mKEYSIG} => ctl[j][1] = 0)
+              \* and nothing else: every control event is a demanded one, or restates at an instance start the tempo / meter /
+              \* key signature already in force (harmless; the property does not forbid it)
+              /\ \A j \in 1..Len(ctl) :
+                    \/ \E dm \in dem : ctl[j][2] = st[dm[1]] /\ Satisfies(ctl[j], dm)
+                    \/ /\ ctl[j][6] \in {mTEMPO, mMETER, mKEYSIG} /\ ctl[j][1] = 0
+                       /\ \E i \in 1..Len(d) : st[i] = ctl[j][2] /\ Satisfies(ctl[j], <<i, ctl[j][6], InForceAt(dem, ctl[j][6], i)>>)
+         \* texts, lyrics and markers are never repeated
+         /\ Cardinality({j \in 1..Len(ctl) : ctl[j][6] \in textual}) = Cardinality({x \in dem : x[2] \in textual})
          /\ VelocityOk(r, d)
 =============================================================================
